@@ -194,6 +194,11 @@ func (p Prog) source(pkg string) (src, check string) {
 		expect("T.By (delegated to the undocumented embed Audit)", "&T{Stamp: new(Stamp)}", []string{"By"}, fieldDoc("By"), true)
 		expect("T.At (delegated to the undocumented embedded pointer Stamp)", "&T{Stamp: new(Stamp)}", []string{"At"}, fieldDoc("At"), true)
 		expect("T.NoSuch", "&T{Stamp: new(Stamp)}", []string{"NoSuch"}, nil, false)
+		// questions answered through the DOCUMENTED embed are not judged - but asking them (twice) must not change
+		// what the embedded type answers for itself afterwards
+		cb.WriteString("\tverifkit.AskDoc(&T{Stamp: new(Stamp)}, \"M\")\n\tverifkit.AskDoc(&T{Stamp: new(Stamp)}, \"M\")\n")
+		expect("Meta.M asked directly after it was asked through the documented embed", "new(Meta)", []string{"M"}, []string{"of meta"}, true)
+		expect("Meta", "new(Meta)", nil, []string{"is embedded with a doc."}, true)
 	case "structs-composed-only-of-embedded-structs":
 		// an embedded exported struct IS an exported field: such structs are covered and delegate
 		b.WriteString(td("T") + "type T struct {\n\tAudit\n}\n\n// Full is composed of embeds only.\ntype Full struct {\n\tAudit\n\t*Stamp\n}\n\n// Wrapped has a field and embeds Full.\ntype Wrapped struct {\n\tName string\n\tFull\n}\n\n// Audit is embedded.\ntype Audit struct {\n" + fd("By") + "\tBy string\n}\n\n// Stamp is embedded by pointer.\ntype Stamp struct {\n" + fd("At") + "\tAt int\n}\n")
